@@ -358,10 +358,10 @@ def case(ctx, rng, idx):
             elif op == "refresh":
                 pass   # handled below
             elif op == "copy":
-                how = rng.choice(["copy", "ctor", "times-one", "one-times", "neg-neg", "plus-zero", "over-one"])
+                how = rng.choice(["copy", "ctor", "times-one", "one-times", "neg-neg", "plus-zero", "over-one", "power-one", "minus-zero"])
                 desc += [how]
                 new = {"copy": lambda: m.copy(), "ctor": lambda: T(m), "times-one": lambda: m * 1, "one-times": lambda: 1 * m,
-                       "neg-neg": lambda: -(-m), "plus-zero": lambda: m + 0, "over-one": lambda: m / 1}[how]()
+                       "neg-neg": lambda: -(-m), "plus-zero": lambda: m + 0, "over-one": lambda: m / 1, "power-one": lambda: m ** 1, "minus-zero": lambda: m - 0}[how]()
                 ctx.cat("copy-by:" + how)
             elif op == "derive":
                 how = rng.choice(["subs", "round"])
